@@ -43,6 +43,8 @@ def run(ctx: Ctx):
     repo = ctx.repo
     roots = [repo.func("ProjectFileParser.parse"), repo.func("Project.schedule"), repo.func("Report.generate"),
              repo.func("preprocess_tjp")]
+    from .common import framework_callbacks
+    roots = roots + framework_callbacks(repo)
     reach = ctx.cg.reach(roots)
     ctx.stats["functions_reachable"] = len(reach)
     # ---------------------------------------------------------------- R11.1
